@@ -35,4 +35,3 @@ func bitsAlpha(n int) []uint64 {
 	}
 	return a
 }
-
